@@ -30,7 +30,9 @@ BREAKS = [
     # --- masked by the second layer (property still holds); kept as documentation
     dict(name="c41-dirnode-delete-unchecked", prop="C41", file="dirnode.py", expect="masked",
          old="        if self.is_readonly():\n            return defer.fail(NotWriteableError())\n        deleter = Deleter(", new="        deleter = Deleter("),
-    dict(name="c41-dirnode-move-unchecked", prop="C41", file="dirnode.py", expect="masked",
+    dict(name="c41-dirnode-move-unchecked", prop="C41", file="dirnode.py",
+         note="relink out of a read-only directory into a writeable to_dir: answered 500, but the destination has gained the link "
+              "(half-performed move) -> refused-request-changed-grid; same mechanism as seeded/C41-1",
          old="        if self.is_readonly() or new_parent.is_readonly():\n            return defer.fail(NotWriteableError())\n", new=""),
     dict(name="c41-dirnode-set_node-unchecked", prop="C41", file="dirnode.py", expect="masked",
          old="        precondition(IFilesystemNode.providedBy(child), child)\n\n        if self.is_readonly():\n            return defer.fail(NotWriteableError())\n",
